@@ -34,6 +34,8 @@ class Sched:
         self.pending = [None] * n          # label of the operation each thread is about to perform
         self.trace = []                    # (enabled ids, chosen id, previously running id, label of the chosen thread's op)
         self.log = []
+        self.write_fault = None            # (index of the write in this execution, "short" | "enospc")
+        self.writes = 0
 
     # ---- thread side ---------------------------------------------------------------------------------------------------
     def me(self):
@@ -57,6 +59,13 @@ class Sched:
         self.main.release()
         self.sem[i].acquire()
         self.log.append((i, label))
+
+    def next_write_fault(self):
+        k = self.writes
+        self.writes += 1
+        if self.write_fault is not None and self.write_fault[0] == k:
+            return self.write_fault[1]
+        return None
 
     def body(self, i, fn, results):
         self.tls.idx = i
@@ -101,6 +110,61 @@ class Sched:
 
 
 # ---- hooks ----------------------------------------------------------------------------------------------------------------
+class _Raw(io.RawIOBase):
+    """Raw (unbuffered) file whose every write and whose close are scheduling points, and that can be told to fail: the
+    k-th write of the execution is cut short (fewer bytes taken than offered - legal for a raw file, a buffered writer above it must
+    retry) or raises ENOSPC.  A caller that asked for buffering gets the real io.BufferedWriter on top of this object."""
+
+    def __init__(self, sched, raw, name):
+        super().__init__()
+        self._s, self._f, self._n = sched, raw, name
+
+    def writable(self):
+        return True
+
+    def readable(self):
+        return False
+
+    def seekable(self):
+        return self._f.seekable()
+
+    def fileno(self):
+        return self._f.fileno()
+
+    def seek(self, *a):
+        return self._f.seek(*a)
+
+    def tell(self):
+        return self._f.tell()
+
+    def truncate(self, *a):
+        return self._f.truncate(*a)
+
+    def write(self, data):
+        data = bytes(data)
+        self._s.point("write %s %d" % (self._n, len(data)))
+        fault = self._s.next_write_fault()
+        if fault == "enospc":
+            import errno
+            raise OSError(errno.ENOSPC, "No space left on device (injected)")
+        if fault == "short" and len(data) > 1:
+            return self._f.write(data[:len(data) // 2])
+        return self._f.write(data)
+
+    def close(self):
+        if not self.closed:
+            if not self._f.closed:
+                self._s.point("close %s" % self._n)
+            try:
+                self._f.close()
+            finally:
+                super().close()
+
+    @property
+    def name(self):
+        return self._f.name
+
+
 class _File:
     """Unbuffered file whose every write and whose close are scheduling points."""
 
@@ -142,9 +206,12 @@ def install(sched, pids):
             sched.point("open %s %s" % (short(file), mode))
             if any(c in mode for c in "wax+") and "b" in mode:
                 k = dict(k)
+                want = a[0] if a else k.pop("buffering", -1)
                 k["buffering"] = 0
-                a = ()
-                return _File(sched, real_open(file, mode, **k), short(file))
+                raw = _Raw(sched, real_open(file, mode, **k), short(file))
+                if want == 0:
+                    return raw                   # the caller asked for an unbuffered file: it sees short writes itself
+                return io.BufferedWriter(raw, buffer_size=want if want and want > 1 else io.DEFAULT_BUFFER_SIZE)
             return real_open(file, mode, *a, **k)
         return real_open(file, mode, *a, **k)
 
